@@ -397,9 +397,17 @@ class Parser:
 
     def stmt(self):
         if self.at('use'):
+            toks = []
             while not self.accept(';'):
-                if self.next()[0] == 'eof':
+                x = self.next()
+                if x[0] == 'eof':
                     self.err('unterminated use')
+                toks.append(x)
+            # a local import must not be able to change what a leaf name means
+            if ('id', 'as') in toks or ('sym', '*') in toks or ('sym', '{') in toks:
+                self.err('unsupported `use` form inside a function body (alias / glob / group)')
+            if toks[-1][0] == 'id' and toks[-1][1] in LEAF_FN:
+                self.err('local import of the leaf name `%s`' % toks[-1][1])
             return None
         if self.at('let'):
             return self.let()
